@@ -155,4 +155,11 @@ def run_cli(case):
         shim = {"HDW_SHIM_STREAM": "" if parts[5] == "-" else parts[5]}
         kind, out, err, _ = core.cli_exec(argv, shim=shim, timeout=meta.get("timeout", 120))
         return render(kind, out)
+    if op == "cli.prefix_parse":
+        # does the value parser accept the prefix?  With a failing entropy source and -j 0 an accepted prefix
+        # leads to a run-time error (exit 255) before any search, a refused one to a clap usage error (exit 2)
+        kind, out, err, _ = core.cli_exec(["new", "--vanity-prefix=" + utf8(parts[1]), "-j", "0"], shim={"HDW_SHIM_STREAM": "fail"})
+        if out:
+            return "unexpected-output " + hx(out)
+        return {"err": "ok", "usage": "err"}.get(kind, kind)
     return "harness-error unknown cli op " + op
